@@ -26,7 +26,9 @@ import (
 )
 
 var slotNames = []string{"a.yaml", "b.json"}
-var kinds = []dirmodel.Kind{dirmodel.Absent, dirmodel.X, dirmodel.XY, dirmodel.Y, dirmodel.V2, dirmodel.Syn, dirmodel.Sem, dirmodel.SchemaBad}
+// the last kind (a third vendor sharing the class of the first) only takes part in the hand-picked
+// populations for the listing subcommands, not in the product
+var kinds = []dirmodel.Kind{dirmodel.Absent, dirmodel.X, dirmodel.XY, dirmodel.Y, dirmodel.V2, dirmodel.Syn, dirmodel.Sem, dirmodel.SchemaBad, dirmodel.V3}
 
 type Case struct {
 	Tool     string            `json:"tool"` // cdi | validate
@@ -72,6 +74,13 @@ func sortedSet(xs []string) []string {
 	for x := range m {
 		o = append(o, x)
 	}
+	sort.Strings(o)
+	return o
+}
+
+// sorted keeps repetitions: an entry the library reports once and the tool prints twice is a difference
+func sorted(xs []string) []string {
+	o := append([]string{}, xs...)
 	sort.Strings(o)
 	return o
 }
@@ -236,12 +245,12 @@ func evalCDI(c Case, root string) hx.Result {
 			} else {
 				got = matches(reDevice, out, 1)
 			}
-			if !eq(sortedSet(got), obs.Devices) {
+			if !eq(sorted(got), obs.Devices) {
 				return fail("device-list-differs", "devices listed differ from the library's", obs.Devices, got)
 			}
 		case "vendors":
 			got := matches(reVendor, out, 1)
-			if !eq(sortedSet(got), obs.Vendors) {
+			if !eq(sorted(got), obs.Vendors) {
 				return fail("vendor-list-differs", "vendors listed differ from the library's", obs.Vendors, got)
 			}
 			for _, m := range reVendor.FindAllStringSubmatch(out, -1) {
@@ -251,7 +260,7 @@ func evalCDI(c Case, root string) hx.Result {
 			}
 		case "classes":
 			got := matches(reClass, out, 1)
-			if !eq(sortedSet(got), obs.Classes) {
+			if !eq(sorted(got), obs.Classes) {
 				return fail("class-list-differs", "classes listed differ from the library's", obs.Classes, got)
 			}
 		case "specs":
@@ -404,7 +413,8 @@ func main() {
 	}
 	extSchemaPath = filepath.Join(extDir, "schema.json")
 
-	radix := []int{len(kinds), len(kinds), len(kinds), len(kinds)}
+	nk := len(kinds) - 1
+	radix := []int{nk, nk, nk, nk}
 	total := int(hx.Product(radix))
 	step := 16
 	if r.Thorough() {
@@ -448,6 +458,38 @@ func main() {
 				cases = append(cases, Case{Tool: "cdi", DirList: dl, State: state, Spelling: spell, Args: sub, digits: digits})
 			}
 		}
+	}
+	// listings over three vendors, two of which share a class, with a Spec of another class between
+	// them in every order the four slots allow: vendors, classes, Specs and devices are sets
+	{
+		three := []int{1, 4, 8} // X, V2, V3
+		var perm func(cur []int, used int)
+		perm = func(cur []int, used int) {
+			if len(cur) == 4 {
+				state := map[string]string{}
+				k := 0
+				for _, d := range []string{"d0", "d1"} {
+					for _, s := range slotNames {
+						state[d+"/"+s] = kinds[cur[k]].String()
+						k++
+					}
+				}
+				for _, sub := range [][]string{{"vendors"}, {"classes"}, {"specs"}, {"specs", "-v"}, {"devices"}, {"specs", "vendor3.net"}} {
+					cases = append(cases, Case{Tool: "cdi", DirList: []string{"d0", "d1"}, State: state, Spelling: "comma", Args: sub, digits: append([]int{}, cur...)})
+				}
+				return
+			}
+			// three distinct kinds and one empty slot, in every arrangement
+			if used&8 == 0 {
+				perm(append(cur, 0), used|8)
+			}
+			for i, kd := range three {
+				if used&(1<<i) == 0 {
+					perm(append(cur, kd), used|1<<i)
+				}
+			}
+		}
+		perm(nil, 0)
 	}
 	nCDI := len(cases)
 	// validate tool: a slice of the C17 document space
